@@ -91,11 +91,12 @@ impl Assembler {
         // compile the kernel; this adds all exported kernel procedures to the procedure cache
         let mut context = AssemblyContext::for_module(true);
         let kernel = Module::kernel(module);
-        self.compile_module(&kernel.ast, Some(&kernel.path), &mut context)?;
+        let proc_roots = self.compile_module(&kernel.ast, Some(&kernel.path), &mut context)?;
 
-        // convert the context into Kernel; this builds the kernel from hashes of procedures
-        // exported form the kernel module
-        self.kernel = context.into_kernel();
+        // build the kernel from hashes of all procedures exported from the kernel module; these
+        // include procedures re-exported from other modules, which can be invoked via syscall
+        // like any other kernel procedure
+        self.kernel = Kernel::new(&proc_roots).map_err(AssemblyError::KernelError)?;
 
         Ok(self)
     }
